@@ -4,7 +4,7 @@ BOUNDS = ('type list {gray8, rgb8 interleaved, rgb8 planar} (any_image_view<gray
           'pixel contents, probed pixel (x,y), probed destination byte (plane, index), sub-image rectangle, subsampling steps (1..3), channel index, fill value symbolic; '
           'equal_pixels / any_image ==: second operand = first except one channel of one pixel at a concrete position changed by a symbolic amount; '
           'user colour converter = first channel xor constant; resample_pixels: nearest neighbour with a concrete integer translation; '
-          'expected result of every algorithm = the same GIL algorithm on the concrete views applied to an identical destination buffer (incompatible pair: bad_cast and the untouched buffer)')
+          'apply_operation (deprecated spelling of visit, unary and binary) and dynamic_at_c::at_c with a symbolic index; expected result of every algorithm = the same GIL algorithm on the concrete views applied to an identical destination buffer (incompatible pair: bad_cast and the untouched buffer)')
 OUTSIDE = ('longer or other type lists (in particular lists whose transformed view types coincide, apart from nth_channel_view where gray8 and planar rgb8 map to the same type); sizes above 3x3; '
            'mismatched source/destination dimensions (precondition of the algorithms); bilinear resampling and non-integer / rotating matrices on variants (C17); move construction/assignment of any_image (not in the property); '
            'any_image with allocations above 4 KiB; recreate with a non-zero alignment for std::allocator images (blocks from operator new have no modelled integer address; checked with the checking allocator instead); default rgb->gray luminance through color_converted_view / copy_and_convert_pixels on variants is checked in the thorough tier only (30-40 s per query), quick tier uses 1x1')
